@@ -9,7 +9,7 @@ dst = "/verif/seeded/%s" % sid
 shutil.rmtree(dst, ignore_errors=True)
 os.makedirs(dst)
 shutil.copy(os.path.join(src, "patch.diff"), dst)
-shutil.copytree(os.path.join(src, "demo"), os.path.join(dst, "demo"), ignore=shutil.ignore_patterns("target", "Cargo.lock", "*.log"))
+shutil.copytree(os.path.join(src, "demo"), os.path.join(dst, "demo"), ignore=shutil.ignore_patterns("target", "*.log"))
 meta = json.load(open(os.path.join(src, "meta.json")))
 tests = re.findall(r"test result: ok\. (\d+) passed; (\d+) failed", log)
 checks = {}
